@@ -23,7 +23,7 @@ ASSUMPTIONS = [
     'docstrings leave open (splitWhere trailing chunk, splitAt slicing, '
     'negative counts of skip/take/slice raising, list() flattening only '
     'iterators) and can only report regressions',
-    'negative positions of insert/insertMany/replace/delete are outside the '
+    'negative positions of insert/insertMany are outside the '
     'documented domain and are not judged (excluded, counted)',
     'where the model predicts failure any exception is accepted',
 ]
